@@ -66,6 +66,8 @@ class C14(Prop):
             rows, r = embed_tableau(ins_to_state(t), j % 3, nn)
             qs = ([nn], [nn - 1, nn - 2], [nn - 3, nn], [64, 65, nn - 1])[j % 4]
             yield {"k": "mlayer", "n": nn, "rows": rows, "r": r, "qs": qs, "seed": self.seed + 500 + j}
+        # one measurement layer over 1100 qubits run backward on |+...+> with a random record
+        yield {"k": "widetrajback", "n": 1100, "seed": self.seed + 700, "pkg": "py"}
         # post-selection on all pure (and some mixed: refusal) tableaux, N <= 2
         for n in (1, 2):
             herm = enum.herm(n)
@@ -92,6 +94,33 @@ class C14(Prop):
                     rec["post"] = be.p_state(S)
                 except ValueError:
                     rec["refused"] = "ValueError"
+            except Exception as e:
+                rec["exc"] = _exc(e)
+            return [rec]
+        if k == "widetrajback":
+            nn = scn["n"]
+            import random as _r
+            rr = _r.Random(scn["seed"])
+            outs = [rr.choice((1, -1)) for _ in range(nn)]
+            rec = {"op": "widetrajback", "n": nn, "outs": outs}
+            try:
+                T = St.zero_state(nn)
+                for q in range(nn):
+                    be.circuit.H(q).forward(T)
+                c = be.circuit.Circuit(nn)
+                c.measure(*range(nn))
+                try:
+                    c.backward(T, measure_result=outs)
+                except ValueError:
+                    rec["refused"] = "ValueError"
+                gs = be.tolist(T.gs)[:nn]
+                ps = be.p_ints(T.ps)[:nn]
+                supp, lett = [], []
+                for row in gs:
+                    qs = [q for q in range(nn) if row[2 * q] or row[2 * q + 1]]
+                    supp.append([q + 1 for q in qs])
+                    lett.append([{(1, 0): 1, (1, 1): 2, (0, 1): 3}[(int(row[2 * q]), int(row[2 * q + 1]))] for q in qs])
+                rec["supp"], rec["lett"], rec["phase"] = supp, lett, ps
             except Exception as e:
                 rec["exc"] = _exc(e)
             return [rec]
